@@ -542,7 +542,9 @@ func c32FirstDiff(a, b []byte) int {
 func TestVerifC32(t *testing.T) {
 	run := kit.Start(t, "C32", "per case: random codec (VP8/VP9/AV1), MTU 30..1400, 1..12 random frames (first a keyframe) packetised by "+
 		"pion's payloaders, random RTP timestamp base/steps (incl. 2^32 wrap), random WithFrameRate/WithWidthAndHeight/WithDirectPTS; "+
-		"written to a plain io.Writer, an in-memory io.WriteSeeker and (1 in 8) a file. A case is non-trivial when >= 2 frames were "+
+		"written to a plain io.Writer, an in-memory io.WriteSeeker and (1 in 8) a file; every output is read back in one pass and "+
+		"incrementally through 1..6 growing prefixes cut inside the file header / a frame header / a payload / on boundaries, resumed with "+
+		"ResetReader at the offset the reader reports (random short reads, EOF with or after the last bytes). A case is non-trivial when >= 2 frames were "+
 		"written and at least one frame was fragmented over >= 2 RTP packets; distinct by codec/MTU/options/frame sizes/packet counts/timestamps")
 	defer run.Finish()
 	run.Assume("writer's PTS computation (from the package docs): elapsed=(ts-ts_first_frame) mod 2^32; WithDirectPTS: pts=elapsed; " +
@@ -553,6 +555,9 @@ func TestVerifC32(t *testing.T) {
 		"numerator at 20, frame count at 24 (https://wiki.multimedia.cx/index.php/IVF)")
 	run.Assume("AV1: the frame the writer assembles for one temporal unit is a temporal delimiter OBU (12 00) followed by the unit's OBUs " +
 		"(minus temporal delimiters / tile lists, which the AV1 RTP format removes) in low-overhead format with obu_has_size_field=1")
+	run.Assume("incremental reading follows the ResetReader documentation: the callback returns a reader positioned at the reported offset of the " +
+		"longer prefix; while fewer than 32 bytes are visible NewWith fails and the caller retries from offset 0; which error ends an unfinished " +
+		"prefix and which offset is reported are not judged, only the frames returned over the whole chain")
 	run.Assume("pion/rtp payloaders (github.com/pion/rtp v1.10.5) and the lossless, in-order delivery of their packets are the trusted input side")
 
 	tmp := t.TempDir()
@@ -779,13 +784,15 @@ func TestVerifC32(t *testing.T) {
 		if useFile {
 			sinks = append(sinks, "file")
 		}
-		for _, sink := range sinks {
+		for si, sink := range sinks {
 			out, ok := write(sink)
 			if !ok {
 				continue
 			}
 			run.Seen("sink", sink)
 			check(sink, out)
+			// the same bytes once more, as somebody tailing the growing file sees them (c32_incr_test.go)
+			c32Incremental(run, i, c, sink, out, kit.NewRand(lossSeed, uint64(40+si)), desc, detail)
 		}
 
 		// Damaged delivery (outside the statement's precondition for "what the writer assembled", so only the
